@@ -351,7 +351,7 @@ def main(argv):
     w_bad = [(w, r) for w, r in zip(witness_recs, wres) if r['outcome'] not in ('ok', 'ended')]
     # ---- decimal variants of the witnesses (harnesses without uninterpreted functions): IEEE rounding exposure on non-dyadic inputs
     dec_info = None
-    ndec = getattr(mod, 'DECIMAL_REPLAYS', {}).get(tier, 0)
+    ndec = int(os.environ.get('VERIF_DECIMAL', 0) or 0) or getattr(mod, 'DECIMAL_REPLAYS', {}).get(tier, 0)
     if ndec:
         drecs = []
         for w in witness_recs:
